@@ -1,5 +1,6 @@
 import RustbusModel.Model.Proto
 import RustbusModel.Model.PeerId
+import RustbusModel.Model.PeerReply
 namespace Driver.C20
 open Rustbus Rustbus.Proto
 
@@ -25,6 +26,21 @@ def handle : List String → String
       let (id, cell') := PeerId.getMachineId cell r1 r2 s
       s!"{String.ofList id} {match cell' with | some x => String.ofList x | none => "~"}"
     | _, _, _ => "bad-op"
+  | ["c20.handle", serial, sender, i, m, cell, a, b, c, wrote] =>
+    match serial.toNat?, optName sender, optName i, optName m, a.toNat?, b.toNat?, c.toNat? with
+    | some ser, some snd, some i, some m, some r1, some r2, some s =>
+      let callSerial : Option Nat := if ser == 0 then none else some ser
+      let call : Serial.Hdr := ⟨callSerial, snd, none, none, none, false⟩
+      let cell := if cell == "~" then none else some cell.toList
+      let inc : PeerId.Incoming := ⟨call, i, m, r1, r2, s, wrote == "1"⟩
+      let (res, out, cell') := PeerId.handlePeerMessage inc cell
+      let rs := match res with | .ok b => s!"ok:{b}" | .sendErr => "senderr"
+      let os := out.map (fun r =>
+        let showO := fun (o : Option (List Char)) => match o with | some x => String.ofList x | none => "~"
+        let rser := match r.hdr.replySerial with | some n => toString n | none => "~"
+        s!"[rs={rser} dest={showO r.hdr.destination} err={r.hdr.isError} serial={match r.hdr.serial with | some n => toString n | none => "~"} body={showO r.body}]")
+      s!"{rs} n={out.length} {" ".intercalate os} cell={match cell' with | some x => String.ofList x | none => "~"}"
+    | _, _, _, _, _, _, _ => "bad-op"
   | _ => "bad-op"
 
 end Driver.C20
